@@ -1,28 +1,32 @@
-(** Canonical dumps of class-generation results (correspondence with Function.set_class_constraints). *)
+(** Canonical dumps of class-generation results (correspondence with Function.set_class_constraints
+    and Function.get_class_constraints_duals). *)
 From Coq Require Import List QArith ZArith Bool String.
 From PV Require Import Model.Dict Model.Terms Model.Dump Model.ClassGen.
 Import ListNotations.
 
 Definition dump_ostr (o : option string) : D := match o with Some s => DL [DS s] | None => DL [] end.
 Definition dump_sample (s : sample) : D :=
-  DL [dump_pdict (s_x s); dump_pdict (s_g s); dump_edict (s_f s); dump_ostr (s_name s)].
+  DL [dump_pdict (s_x s); dump_pdict (s_g s); dump_edict (s_f s); dump_ostr (s_name s); DN (s_uid s)].
 Definition dump_citem (c : citem) : D := DL [dump_ostr (c_name c); dump_cons (c_obj c)].
 Definition dump_lmi (m : list (list edict)) : D := DL (map (fun row => DL (map dump_edict row)) m).
-Definition dump_rows (rows : list (list (option citem))) : D :=
-  DL (map (fun row => DL (map (fun o => match o with Some c => dump_citem c | None => DL [] end) row)) rows).
-
-(** Python dict semantics of tables_of_constraints[cname] = df : overwrite in place, else append *)
-Fixpoint table_set (t : table) (l : list table) : list table :=
-  match l with
-  | [] => [t]
-  | t' :: l' => if String.eqb (t_name t') (t_name t) then t :: l' else t' :: table_set t l'
-  end.
-Definition tables_dict (ts : list table) : list table := fold_left (fun acc t => table_set t acc) ts [].
+(** a cell: [] for the scalar 0, else [position of the object in list_of_class_constraints, object] *)
+Definition dump_rows (rows : list (list (option (nat * citem)))) : D :=
+  DL (map (fun row => DL (map (fun o => match o with
+                                        | Some (p, c) => DL [DN p; dump_citem c]
+                                        | None => DL []
+                                        end) row)) rows).
+Definition dump_table (t : table) : D :=
+  DL [DS (t_name t); dump_rows (t_rows t); DL (map DS (t_index t)); DL (map DS (t_columns t)); DS (t_title t)].
+(** get_class_constraints_duals() after the harness tagged the p-th class constraint with dual value p *)
+Definition dump_duals (t : table) : D :=
+  DL [DS (t_name t);
+      DL (map (fun row => DL (map DQ row)) (duals_table (fun p => inject_Z (Z.of_nat p)) t))].
 
 Definition dump_genout (o : genout) : D :=
   DL [DL (map dump_citem (g_cons o));
       DL (map dump_lmi (g_lmis o));
-      DL (map (fun t => DL [DS (t_name t); dump_rows (t_rows t)]) (tables_dict (g_tables o)));
+      DL (map dump_table (tables_dict (g_tables o)));
+      DL (map dump_duals (tables_dict (g_tables o)));
       DL (map dump_sample (f_points (g_state o)));
       DL (map dump_sample (f_stat (g_state o)));
       DN (f_next_point (g_state o)); DN (f_next_expr (g_state o))].
